@@ -85,7 +85,7 @@ theorem res_put (C : Codec) (H : Bytes → String) {d : Disk} (h : DiskInv d) (k
   split
   · rfl
   split
-  · rfl
+  · split <;> rfl
   rename_i hneg _ _ _
   by_cases hp : size > 0
   · simp only [hp, if_true]
